@@ -87,6 +87,10 @@ func (d *delayedValidator) Validate(ctx context.Context, cmd disruption.Command,
 			}
 			ran = true
 			d.between()
+			if d.clk.HasWaiters() {
+				// a harness bug (the delay events must move the clock past the validation period): fail loudly instead of hanging
+				panic("c05 harness: the validator is still waiting on the clock after the delay events")
+			}
 		}()
 		out, err = d.inner.Validate(ctx, cmd, period)
 		close(returned)
@@ -1154,7 +1158,7 @@ func runRounds(c *kit.Ctx, r *kit.Rand, nOps int) {
 						if e := genEnv(); e.Kind == "clock" && time.Unix(0, e.Time).After(target) {
 							target = time.Unix(0, e.Time)
 						}
-						if L.toWindow && scheduleAt.After(w.clk.Now()) {
+						if L.toWindow && scheduleAt.After(target) {
 							target = scheduleAt // a window scheduled for 11:00 opens during the wait
 						}
 						e := jEvent{Kind: "clock", Time: target.UnixNano()}
